@@ -88,8 +88,25 @@ class World(SessionWorld):
         self.tok = 0
 
     sync_reply_for = None
+    pending_alloc = None
+    reply_inside_send = False
+    claimed = None
+
+    def on_send_attempt(self, msg):
+        # the library draws the request id before it calls send(): from here on the id is taken
+        if self.pending_alloc is not None:
+            self.prev_id = self.pending_alloc
+            self.pending_alloc = None
 
     def on_sent(self, msg):
+        if self.reply_inside_send:
+            # the transport answers an EARLIER pending request from inside this send() (in-process routers do);
+            # the application's callback on that request may in turn issue a new request - all before send() returns
+            self.reply_inside_send = False
+            pend = [r for r in self.order if r.id is not None and not r.answered and r.kind != "cancel" and r.id != getattr(msg, "request", None)]
+            if pend and self.t.attached and self.t.closing is None and not self.violated_session:
+                self.run.probe("earlier-request-answered-inside-send")
+                self.router_reply(exclude=getattr(msg, "request", None))
         # a transport may answer from inside send() (in-process routers do): the session's onMessage() is then
         # re-entered while the application is still inside a handler
         r2 = self.sync_reply_for
@@ -101,7 +118,12 @@ class World(SessionWorld):
             if exc is not None:
                 self.run.violate("C04.own-reply", "legal-reply-raised:Result:%s" % type(exc).__name__, "re-entrant progressive result: %r" % (exc,))
 
-    def nested_call(self, parent):
+    def chained_call(self, parent):
+        """issued from inside the completion callback of `parent`"""
+        self.run.probe("call-issued-inside-completion-callback")
+        self.nested_call(parent, sync_progress=False)
+
+    def nested_call(self, parent, sync_progress=True):
         """issued from inside parent's progress handler; the router answers it with a progressive result from inside send()"""
         from autobahn.wamp import types
         S = self.session
@@ -114,9 +136,12 @@ class World(SessionWorld):
         r2.opts = {"opt": "progress"}
         expect_id = self.next_id()
         n0 = len(self.t.sent)
-        self.run.log("app", "nested-call", r2.token, "inside progress handler of", parent.token)
-        self.run.probe("call-issued-inside-progress-handler")
-        self.sync_reply_for = r2
+        self.run.log("app", "nested-call", r2.token, "inside a handler of", parent.token)
+        if sync_progress:
+            self.run.probe("call-issued-inside-progress-handler")
+            self.sync_reply_for = r2
+        saved = self.pending_alloc
+        self.pending_alloc = expect_id
         try:
             fut = S.call(r2.uri, r2.token, options=types.CallOptions(on_progress=self.make_progress(r2)))
         except Exception as e:  # noqa
@@ -124,9 +149,15 @@ class World(SessionWorld):
             return
         finally:
             self.sync_reply_for = None
+            self.pending_alloc = saved
         r2.fut = fut
         r2.w = self.fw.watch(fut)
         self.verify_request(r2, "call", n0, [48, expect_id, {"receive_progress": True}, r2.uri, [r2.token]], expect_id, fut)
+        if self.claimed is None:
+            self.claimed = set()
+        for m in self.t.sent[n0:]:
+            if isinstance(m, self.M.Call) and m.procedure == r2.uri:
+                self.claimed.add(id(m))
 
     # --- actions -----------------------------------------------------------------------------------------
     def actions(self):
@@ -194,6 +225,8 @@ class World(SessionWorld):
         exp_marshal = None
         fut = None
         self.run.log("app", kind, r.token)
+        self.pending_alloc = expect_id if kind != "cancel" else None
+        self.reply_inside_send = kind != "cancel" and ch.flag("reply-to-earlier-request-inside-send", 0.12)
         try:
             if kind == "call":
                 r.uri = "com.example.proc.%s" % r.token
@@ -311,12 +344,23 @@ class World(SessionWorld):
         except Exception as e:  # noqa
             self.run.violate("C04.one-request", "api-raised:%s:%s" % (kind, type(e).__name__), repr(e))
             return
+        finally:
+            self.pending_alloc = None
+            self.reply_inside_send = False
         r.fut = fut
+        if fut is not None and kind != "cancel" and ch.flag("completion-callback-issues-call", 0.15):
+            def chain(res, r=r):
+                if self.t.attached and self.t.closing is None and not self.violated_session and self.session._session_id:
+                    self.chained_call(r)
+                return res
+            import txaio
+            txaio.add_callbacks(fut, chain, chain)
         r.w = self.fw.watch(fut) if fut is not None else None
         return (r, kind, n0, exp_marshal, expect_id, fut)
 
     def verify_request(self, r, kind, n0, exp_marshal, expect_id, fut):
-        new = self.t.sent[n0:]
+        # (requests issued re-entrantly from inside this one's send() were verified and claimed on their own)
+        new = [m for m in self.t.sent[n0:] if not (self.claimed and id(m) in self.claimed)]
         if exp_marshal is None:
             if new:
                 self.run.violate("C04.one-request", "unexpected-message:%s" % kind, repr([type(m).__name__ for m in new]))
@@ -336,7 +380,7 @@ class World(SessionWorld):
             self.run.violate("C04.one-request", "wrong-%s:%s" % (what, kind), "sent %r expected %r" % (got, exp_marshal))
         if kind == "cancel":
             return
-        self.prev_id = expect_id
+        # (self.prev_id was advanced when the id was drawn, i.e. at the first send attempt of the operation)
         if not (1 <= new[0].request <= MAXID):
             self.run.violate("C04.one-request", "id-out-of-range", str(new[0].request))
         r.id = expect_id
@@ -377,10 +421,10 @@ class World(SessionWorld):
         return handler
 
     # --- router side ---------------------------------------------------------------------------------------
-    def router_reply(self):
+    def router_reply(self, exclude=None):
         ch = self.run.ch
         M = self.M
-        pend = [r for r in self.order if r.id is not None and not r.answered and r.kind != "cancel"]
+        pend = [r for r in self.order if r.id is not None and not r.answered and r.kind != "cancel" and r.id != exclude]
         r = pend[ch.low(len(pend), "which-pending", 0.7)] if ch.flag("oldest-first", 0.4) else ch.pick(pend, "which-pending")
         how = ch.pick(("ok", "error", "progress"), "how", (5, 2, 2 if (r.kind == "call" and "progress" in r.opts["opt"]) else 0))
         args, kwargs = ch.pick(ARGSETS, "reply-args")
@@ -429,6 +473,13 @@ class World(SessionWorld):
         elif r.kind == "unsubscribe":
             msg = M.Unsubscribed(r.id)
             r.expect = ("ok", 0)
+            # router-side truth: the session's subscription is gone now - also for a handler whose SUBSCRIBE was
+            # answered with this same subscription id while the UNSUBSCRIBE was in flight
+            sid = r.opts["sid"]
+            self.subs = [x for x in self.subs if x[1] != sid]
+            for topic, x in list(self.sub_ids.items()):
+                if x == sid:
+                    del self.sub_ids[topic]
         else:
             msg = M.Unregistered(r.id)
             r.expect = ("ok", None)
